@@ -2,6 +2,7 @@ package rules
 
 import (
 	"fmt"
+	"go/token"
 	"go/types"
 	"regexp"
 	"sort"
@@ -460,7 +461,7 @@ func c05R4(p *core.Prog, r *core.Report) {
 // C06
 
 func checkC06(p *core.Prog, r *core.Report) {
-	r.Explanation = "Decides structural necessary conditions of hold expiry: (R1) every store to a hold's deadline is start + E*unit + 1 (start = current time, or the lock's startTime set from the current time on the same path) with the unit selected by the matching flag tests and the period widened before scaling, or the never-expiring sentinel under the unlimited flag (tabled: not-yet-granted zero, keep-alive and follower re-arm, clamp to the sweeper); (R2) the sweeper hands a wheel entry to the expiry queue only on expriedTime <= now, and sweeps the long table Len() times before retiring it; (R3) wheel constants incl. back-off+2 <= 10 and the slot chosen by AddExpried is never behind the sweeper; (R5) doExpried's effect order on the live path: tombstone, depth subtraction, RemoveLock under the mutex, then one EXPRIED reply and the wake-up pass; (R6) when an update or re-lock changes the deadline of a hold that sits in the long-wait table, the entry is removed under its old deadline and re-inserted (with its reference) - skipped only when the deadline is unchanged; (R7) a sweeper re-arms an entry only after testing its tombstone clear; (R8) a recycled long-wait bucket has every field re-assigned that freeing it overwrote. NOT decided: the upper bounds E+2 s / 10 s (sweeper liveness), behaviour across the 16-slot wrap under load."
+	r.Explanation = "Decides structural necessary conditions of hold expiry: (R1) every store to a hold's deadline is start + E*unit + 1 (start = current time, or the lock's startTime set from the current time on the same path) with the unit selected by the matching flag tests and the period widened before scaling, or the never-expiring sentinel under the unlimited flag (tabled: not-yet-granted zero, keep-alive and follower re-arm, clamp to the sweeper); (R2) the sweeper hands a wheel entry to the expiry queue only on expriedTime <= now, and sweeps the long table Len() times before retiring it; (R3) wheel constants incl. back-off+2 <= 10 and the slot chosen by AddExpried is never behind the sweeper; (R5) doExpried's effect order on the live path: tombstone, depth subtraction, RemoveLock under the mutex, then one EXPRIED reply and the wake-up pass; (R6) when an update or re-lock changes the deadline of a hold that sits in the long-wait table, the entry is removed under its old deadline and re-inserted (with its reference) - skipped only when the deadline is unchanged; (R7) a sweeper re-arms an entry only after testing its tombstone clear; (R8) a recycled long-wait bucket has every field re-assigned that freeing it overwrote; (R9) the millisecond sweep compares a field an update rewrites before it ends a hold (it does not: known finding). NOT decided: the upper bounds E+2 s / 10 s (sweeper liveness), behaviour across the 16-slot wrap under load."
 	r.Assumptions = []string{"Go type checker and go/ssa are correct for /repo", "the server clock LockDB.currentTime is second-granular and monotone"}
 	deadlineRule(p, r, deadlineSpec{rule: "C06/R1", field: fk("server.Lock", "expriedTime"), amount: "Expried", flagName: "ExpriedFlag",
 		exceptions: map[string]map[string]string{
@@ -478,6 +479,7 @@ func checkC06(p *core.Prog, r *core.Report) {
 	c06R5(p, r)
 	c06R6(p, r)
 	c06R8(p, r)
+	c06R9(p, r)
 	rearmRule(p, r, "C06/R7", []string{"server.(*LockDB).checkTimeExpried", "server.(*LockDB).checkMillisecondExpried"}, "Expried", "expried")
 }
 
@@ -809,5 +811,81 @@ func c06R8(p *core.Prog, r *core.Report) {
 	}
 	if n == 0 {
 		r.Fail("C06/R8: no recycled-bucket return found")
+	}
+}
+
+// c06R9: an update or re-lock restarts a hold's period by rewriting its
+// startTime / expriedTime; the timer entry filed for the old deadline stays
+// where it is. The second-granular sweeper copes because it compares the
+// entry's deadline with the clock before ending the hold (R2). The millisecond
+// sweep must likewise consult one of the fields an update rewrites before it
+// ends a hold; a sweep that looks only at the tombstone and at the request's
+// constant Expried ends an updated hold at its original deadline.
+func c06R9(p *core.Prog, r *core.Report) {
+	const rule = "C06/R9"
+	r.Rule(rule, "the millisecond expiry sweep compares a field that an update rewrites (Lock.expriedTime / Lock.startTime) before it ends a hold", 1)
+	fn := mustFunc(p, r, "server.(*LockDB).checkMillisecondExpried")
+	if fn == nil {
+		return
+	}
+	restartable := map[core.FieldKey]bool{fk("server.Lock", "expriedTime"): true, fk("server.Lock", "startTime"): true}
+	var derives func(v ssa.Value, d int) bool
+	derives = func(v ssa.Value, d int) bool {
+		if d > 6 {
+			return false
+		}
+		switch t := v.(type) {
+		case *ssa.UnOp:
+			if fa, ok := t.X.(*ssa.FieldAddr); ok && restartable[core.FieldKeyOf(fa.X.Type(), fa.Field)] {
+				return true
+			}
+		case *ssa.BinOp:
+			return derives(t.X, d+1) || derives(t.Y, d+1)
+		case *ssa.Convert:
+			return derives(t.X, d+1)
+		case *ssa.Phi:
+			for _, e := range t.Edges {
+				if derives(e, d+1) {
+					return true
+				}
+			}
+		}
+		return false
+	}
+	found := ""
+	ends := ""
+	scan := func(f *ssa.Function) {
+		for _, b := range f.Blocks {
+			for _, ins := range b.Instrs {
+				if bo, ok := ins.(*ssa.BinOp); ok {
+					switch bo.Op {
+					case token.LSS, token.LEQ, token.GTR, token.GEQ, token.EQL, token.NEQ:
+						if derives(bo.X, 0) || derives(bo.Y, 0) {
+							found = p.InstrPos(ins)
+						}
+					}
+				}
+				if calleeIs(ins, "LockDB", "doExpried") && ends == "" {
+					ends = p.InstrPos(ins)
+				}
+			}
+		}
+	}
+	scan(fn)
+	for _, b := range fn.Blocks {
+		for _, ins := range b.Instrs {
+			if c := core.StaticCallee(ins); c != nil && p.IsNewFunc(c) && c.Blocks != nil {
+				scan(c)
+			}
+		}
+	}
+	key := "server.(*LockDB).checkMillisecondExpried: updated hold not ended by its stale timer"
+	switch {
+	case ends == "":
+		r.Fail("C06/R9: the millisecond sweep never ends a hold (doExpried call not found)")
+	case found != "":
+		r.Hold(rule, key, found, "the sweep compares the hold's restartable terms before ending it")
+	default:
+		r.Violate(rule, key, ends, "the millisecond sweep ends every entry that is not tombstoned without comparing any field an update rewrites (Lock.expriedTime, Lock.startTime): a hold with a millisecond expiry below the hand-over threshold whose period was restarted by an update or re-lock is still ended at its original deadline, before E has passed since the update", nil)
 	}
 }
